@@ -5,6 +5,7 @@ import Mathlib.Tactic.Linarith
 import Mathlib.Tactic.NormNum
 import Mathlib.Data.Rat.Defs
 import Mathlib.Algebra.Order.Field.Rat
+import AtsimModel.Lemmas.KernelQ
 /-!
 # C02 — DL_POLY TABLE: header, 4-per-record layout, energies and -r dU/dr faithful
 
@@ -128,4 +129,30 @@ example : dlpolyTable [⟨"A", "B", 1⟩] 1 7 = none := by decide +kernel
 example : (dlpolyTable [⟨"A", "B", 1⟩] 1 8).map (fun t => (t.delpot, t.blocks.map fun b => b.energies.map fun g => g.length))
     = some (1/4, [[4, 4]]) := by decide +kernel
 
+end Atsim.C02
+
+/-! ## kernel ties: the arithmetic the code uses at these places, regenerated from the source on every run, is the model's -/
+namespace Atsim.C02
+open Atsim.Gen Atsim.E
+set_option linter.unusedTactic false
+set_option linter.unusedSimpArgs false
+theorem C02_kernel_args (cut : Rat) (ngrid : Nat) : k_dlpoly_args.map (evalQ (envQ [cut, ngrid])) = [cut, (ngrid : Rat)] := by
+  kernel_unfold [k_dlpoly_args]
+  kernel_close
+theorem C02_kernel_mesh (cut : Rat) (ngrid : Nat) : evalQ (envQ [cut, ngrid]) k_dlpoly_mesh = meshResolution cut ngrid := by
+  kernel_unfold [k_dlpoly_mesh, meshResolution]
+  kernel_close
+/-- both loops advance the separation by `r += meshResolution`: the k-th abscissa is `accum mesh k` -/
+theorem C02_kernel_step (mesh : Rat) (k : Nat) :
+    evalQ (envQ [accum mesh k, mesh]) k_dlpoly_r_step = accum mesh (k + 1) ∧
+    evalQ (envQ [accum mesh k, mesh]) k_dlpoly_r_step_force = accum mesh (k + 1) := by
+  constructor
+  · kernel_unfold [k_dlpoly_r_step, accum]
+    kernel_close
+  · kernel_unfold [k_dlpoly_r_step_force, accum]
+    kernel_close
+/-- the force column is `r * Potential.force(r)` = `-r dV/dr` -/
+theorem C02_kernel_force (r f : Rat) : evalQ (envQ [r, f]) k_dlpoly_force = r * f := by
+  kernel_unfold [k_dlpoly_force]
+  kernel_close
 end Atsim.C02
